@@ -9,6 +9,7 @@ package sched
 
 import (
 	"fmt"
+	"time"
 
 	"github.com/gobuffalo/plush/v5/vsync"
 	"github.com/gobuffalo/plush/v5/vtick"
@@ -218,6 +219,10 @@ type Stats struct {
 // Explore enumerates every schedule with at most bound preemptions (bound < 0: unbounded).
 // mk builds fresh bodies for each execution; check inspects the finished execution and
 // returns a non-empty message on violation (exploration stops at the first one).
+// Deadline, when set, makes Explore stop (Stats.Truncated) once it has passed: the caller reports the largest
+// bound it completed and marks the run as not exhaustive for the bound that was cut short.
+var Deadline time.Time
+
 func Explore(mk func() []func(), bound int, maxSchedules int, maxSteps int, check func(x *Exec, schedule []int) string) (Stats, string, []int) {
 	var st Stats
 	st.BoundUsed = bound
@@ -229,6 +234,10 @@ func Explore(mk func() []func(), bound int, maxSchedules int, maxSteps int, chec
 			return
 		}
 		if maxSchedules > 0 && st.Schedules >= maxSchedules {
+			st.Truncated = true
+			return
+		}
+		if !Deadline.IsZero() && st.Schedules&15 == 0 && time.Now().After(Deadline) {
 			st.Truncated = true
 			return
 		}
